@@ -198,3 +198,63 @@ def run(chk, F, tier, pairs, tabs, info):
                               where=span_str(inst.get("span")))
             else:
                 chk.ok("algorithm", key + ": result %r beyond the last abscissa with the sign of u" % (rv,))
+
+    # ---- acceptance test of the Marsaglia tail: the loop is left exactly when  -2*y >= x*x  (y = ln U2, x = ln U1 / R)
+    for inst in zc[:1]:
+        T = Terms(F, inst)
+        fi = FnInfo(F, inst)
+        key = "normal tail acceptance"
+        if not fi.loops:
+            chk.violation("algorithm", key + ":anchor", "the normal tail routine has no rejection loop", where=span_str(inst.get("span")))
+            continue
+        h, body, _ = fi.loops[0]
+        found = False
+        for (src, dst) in fi.loop_exits(body):
+            tsw = inst["blocks"][src]["term"]
+            if tsw["k"] != "switch":
+                continue
+            cmp_ = None
+            for s_ in inst["blocks"][src]["stmts"]:
+                if s_["k"] == "assign" and s_["rv"]["k"] == "binop" and s_["rv"]["op"] in ("Lt", "Le", "Gt", "Ge"):
+                    cmp_ = (s_["rv"]["op"], T.of_operand(s_["rv"]["a"]), T.of_operand(s_["rv"]["b"]), s_.get("span"))
+            if cmp_ is None:
+                continue
+            # truth value of the comparison on the exit edge
+            exit_truth = None
+            for v, tg in tsw["targets"]:
+                if tg == dst:
+                    exit_truth = int(v, 16) != 0
+            if exit_truth is None and tsw["otherwise"] == dst:
+                listed = {int(v, 16) != 0 for v, _ in tsw["targets"]}
+                exit_truth = (False not in listed) and False or (True not in listed)
+            op, a, b2, sp = cmp_
+            # canonical form: exit iff  d = a - b  satisfies  d (rel) 0
+            rel = {("Lt", True): "<", ("Lt", False): ">=", ("Le", True): "<=", ("Le", False): ">", ("Gt", True): ">", ("Gt", False): "<=",
+                   ("Ge", True): ">=", ("Ge", False): "<"}[(op, bool(exit_truth))]
+
+            def atom(t):
+                return fmt(t)
+            pa, pb = poly(a, atom), poly(b2, atom)
+            if pa is None or pb is None:
+                continue
+            d = dict(pa)
+            for m_, c_ in pb.items():
+                d[m_] = d.get(m_, 0) - c_
+            d = {m_: c_ for m_, c_ in d.items() if c_ != 0}
+            # expected: -2*y - x*x >= 0 (or its negation x*x + 2*y <= 0), y and x the two loop variables
+            monos = sorted(d.items(), key=lambda kv: len(kv[0]))
+            ok = False
+            if len(d) == 2 and len(monos[0][0]) == 1 and len(monos[1][0]) == 2 and monos[1][0][0] == monos[1][0][1]:
+                cy, cx = monos[0][1], monos[1][1]
+                plain = "(" not in monos[0][0][0] and "(" not in monos[1][0][0]
+                sign_ok = (cy < 0 and cx < 0 and rel == ">=") or (cy > 0 and cx > 0 and rel == "<=")
+                # with plain loop variables the constants are checked too (ratio 2); after an inlining refactor only the shape and signs
+                ok = sign_ok and (not plain or cy == 2 * cx)
+            found = True
+            if ok:
+                chk.ok("algorithm", key + ": the rejection loop exits exactly when -2*y >= x*x")
+            else:
+                chk.violation("algorithm", key, "the normal tail's rejection loop exits when (%s) - (%s) %s 0; Marsaglia's method accepts when -2*ln(U2) >= (ln(U1)/R)^2 "
+                              "(a reversed or altered test changes the law inside the tail while keeping its total mass)" % (fmt(a), fmt(b2), rel), where=span_str(sp))
+        if not found:
+            chk.violation("algorithm", key + ":anchor", "acceptance comparison of the tail loop not found", where=span_str(inst.get("span")))
